@@ -117,16 +117,16 @@ func (t *Term) render() string {
 
 // FnInfo caches per-function analysis state.
 type FnInfo struct {
-	p        *Prog
-	Fn       *ssa.Function
-	terms    map[ssa.Value]*Term
-	places   map[ssa.Value]*Term
-	storedF  map[string]bool     // struct fields stored to in this function through non-fresh bases
-	allocSt  map[*ssa.Alloc]int  // number of direct stores
-	allocEsc map[*ssa.Alloc]bool // captured by closure or address escapes to a call
-	instrIdx map[ssa.Instruction]int
-	facts    map[*ssa.BasicBlock][]Atom
-	fieldLoads []fieldLoad
+	p             *Prog
+	Fn            *ssa.Function
+	terms         map[ssa.Value]*Term
+	places        map[ssa.Value]*Term
+	storedF       map[string]bool     // struct fields stored to in this function through non-fresh bases
+	allocSt       map[*ssa.Alloc]int  // number of direct stores
+	allocEsc      map[*ssa.Alloc]bool // captured by closure or address escapes to a call
+	instrIdx      map[ssa.Instruction]int
+	facts         map[*ssa.BasicBlock][]Atom
+	fieldLoads    []fieldLoad
 	allFieldLoads []fieldLoad
 }
 
